@@ -329,6 +329,11 @@ fn url_for(scheme: &str) -> String {
 
 /// Issue the request with exactly the parameters the content has; returns (sent, local error, wire)
 fn attempt(ws: &mut WSess, c: &Value) -> (bool, String, String) {
+    attempt_ordered(ws, c, false)
+}
+
+/// `rev`: the builder methods that set parameters are called in the reverse order
+fn attempt_ordered(ws: &mut WSess, c: &Value, rev: bool) -> (bool, String, String) {
     let op = c["op"].as_str().unwrap();
     let tgt = c["tgt"].as_str().unwrap();
     let src = c["src"].as_str().unwrap();
@@ -425,17 +430,29 @@ fn attempt(ws: &mut WSess, c: &Value) -> (bool, String, String) {
         }
         "commit" => go!(Commit, move |b| {
             let mut b = b;
+            let mut steps: Vec<u8> = Vec::new();
             if confirmed {
-                b = b.confirmed(true)?;
+                steps.push(0);
             }
             if timeout {
-                b = b.confirm_timeout(std::time::Duration::from_secs(120))?;
+                steps.push(1);
             }
             if persist {
-                b = b.persist(Some(Token::new("tok-1")))?;
+                steps.push(2);
             }
             if persistid {
-                b = b.persist_id(Some(Token::new("tok-1")))?;
+                steps.push(3);
+            }
+            if rev {
+                steps.reverse();
+            }
+            for s in steps {
+                b = match s {
+                    0 => b.confirmed(true)?,
+                    1 => b.confirm_timeout(std::time::Duration::from_secs(120))?,
+                    2 => b.persist(Some(Token::new("tok-1")))?,
+                    _ => b.persist_id(Some(Token::new("tok-1")))?,
+                };
             }
             b.finish()
         }),
@@ -545,6 +562,21 @@ fn c09(contents_path: &str, capsets_path: &str, out: &mut dyn Write) {
             let wire_ok = !sent || wire_matches(c, &wire);
             writeln!(out, "{}", json!({"ev": "c09", "case": k * 1000 + j, "capset": k, "content": j, "caps": caps, "c": c,
                 "sent": sent, "local": local.chars().take(120).collect::<String>(), "wire_ok": wire_ok})).unwrap();
+            // the same content with the parameter-setting builder calls in the opposite order
+            let nopts = ["confirmed", "timeout", "persist", "persistid"].iter().filter(|f| c[**f].as_bool().unwrap_or(false)).count();
+            if c["op"] == "commit" && nopts >= 2 {
+                let r = std::panic::catch_unwind(std::panic::AssertUnwindSafe(|| attempt_ordered(&mut ws, c, true)));
+                let (sent, local, wire) = match r {
+                    Ok(x) => x,
+                    Err(_) => {
+                        ws = WSess::with_hello(hello.clone()).expect("session");
+                        (false, "panic".into(), String::new())
+                    }
+                };
+                let wire_ok = !sent || wire_matches(c, &wire);
+                writeln!(out, "{}", json!({"ev": "c09", "case": k * 1000 + j, "capset": k, "content": j, "caps": caps, "c": c, "order": "reversed",
+                    "sent": sent, "local": local.chars().take(120).collect::<String>(), "wire_ok": wire_ok})).unwrap();
+            }
         }
     }
 }
@@ -565,6 +597,13 @@ fn sid_text(shape: &str) -> Option<&'static str> {
     })
 }
 
+const EXTRA_CAPS: [&str; 4] = [
+    "urn:ietf:params:netconf:capability:with-defaults:1.0?basic-mode=explicit&also-supported=report-all",
+    "urn:ietf:params:netconf:capability:notification:1.0",
+    "urn:ietf:params:xml:ns:yang:ietf-netconf-monitoring?module=ietf-netconf-monitoring&revision=2010-10-04",
+    "http://xml.juniper.net/dmi/system/1.0",
+];
+
 fn hello_case_xml(c: &Value) -> String {
     let base = strs(&c["base"]);
     let sid = c["sid"].as_str().unwrap();
@@ -583,6 +622,10 @@ fn hello_case_xml(c: &Value) -> String {
     }
     caps.push_str(&format!("<{p}capability>urn:ietf:params:netconf:capability:candidate:1.0</{p}capability>"));
     caps.push_str(&format!("<{p}capability>{JUNOS_CAP}</{p}capability>"));
+    // capabilities the library has no name for are still part of what the server said
+    for u in EXTRA_CAPS {
+        caps.push_str(&format!("<{p}capability>{}</{p}capability>", u.replace('&', "&amp;")));
+    }
     let sid_el = |t: &str| format!("<{p}session-id>{t}</{p}session-id>");
     let sids = match sid {
         "missing" => String::new(),
@@ -592,6 +635,11 @@ fn hello_case_xml(c: &Value) -> String {
     let capsel = if shape == "nocaps" { String::new() } else { format!("<{p}capabilities>{caps}</{p}capabilities>") };
     let full = format!("<{p}hello {decl}>{capsel}{sids}</{p}hello>");
     match shape {
+        // content after the root element: not a well-formed document
+        "trailing-text" => format!("{full}login: {EOM}"),
+        "two-roots" => format!("{full}{full}{EOM}"),
+        "trailing-reply" => format!("{full}<rpc-reply message-id=\"1\" xmlns=\"{BASE_NS}\"><ok/></rpc-reply>{EOM}"),
+        "stray-end" => format!("{full}</{p}hello>{EOM}"),
         "truncated" => format!("{}{EOM}", &full[..full.len() / 2]),
         "notxml" => format!("Welcome to the router!\r\n{EOM}"),
         _ => format!("{full}{EOM}"),
@@ -633,6 +681,7 @@ fn c12(cases_path: &str, out: &mut dyn Write) {
                 .collect();
             hello_caps.push("urn:ietf:params:netconf:capability:candidate:1.0".into());
             hello_caps.push(JUNOS_CAP.into());
+            hello_caps.extend(EXTRA_CAPS.iter().map(|u| u.to_string()));
             hello_caps.sort();
             let mut ev = json!({"ev": "c12", "case": k, "c": c, "client_base": client_base, "hello_caps": hello_caps,
                                 "client_hello_framing": if client_hello.ends_with(EOM) { "eom" } else { "other" }});
@@ -652,6 +701,10 @@ fn c12(cases_path: &str, out: &mut dyn Write) {
                     let mut caps: Vec<String> = ctx.server_capabilities().iter().map(|c| c.uri().to_string()).collect();
                     caps.sort();
                     ev["caps"] = json!(caps);
+                    // the same list with XML escaping undone (decides which of two rules a difference falls under)
+                    let mut un: Vec<String> = caps.iter().map(|c| c.replace("&amp;", "&")).collect();
+                    un.sort();
+                    ev["caps_unescaped"] = json!(un);
                     // framing of the first request after the hello exchange
                     let before = ctl.sent_len();
                     let mut outer: LBoxFut<'_, _> = Box::pin(session.rpc::<Get, _>(|b| b.filter(None).finish()));
@@ -888,6 +941,8 @@ fn c10(cases_path: &str, out: &mut dyn Write) {
                 "set-config" => { let (s, l) = go!(LoadConfiguration<_>, move |b| b.source(Config::new(val, Text, Set)).finish()); (s, l, "configuration-set", false) }
                 "subtree-filter" => { let f = format!("<top k=\"{}\">{}</top>", xml_escape(&val), xml_escape(&val)); let (s, l) = go!(Get, move |b| b.filter(Some(Filter::Subtree(f))).finish()); (s, l, "top", true) }
                 "edit-fragment" => { let f = format!("<top k=\"{}\">{}</top>", xml_escape(&val), xml_escape(&val)); let (s, l) = go!(EditConfig<Raw>, move |b| b.target(Datastore::Candidate)?.config(Raw(f)).finish()); (s, l, "top", true) }
+                "edit-opaque" => { let f = format!("<top k=\"{}\">{}</top>", xml_escape(&val), xml_escape(&val)); let (s, l) = go!(EditConfig<Opaque>, move |b| b.target(Datastore::Candidate)?.config(Opaque::from(f)).finish()); (s, l, "top", true) }
+                "load-opaque" => { let f = format!("<configuration><top k=\"{}\">{}</top></configuration>", xml_escape(&val), xml_escape(&val)); let (s, l) = go!(LoadConfiguration<_>, move |b| b.source(Config::new(Opaque::from(f), Xml, Merge)).finish()); (s, l, "top", true) }
                 "copy-fragment" => { let f = format!("<top k=\"{}\">{}</top>", xml_escape(&val), xml_escape(&val)); let (s, l) = go!(CopyConfig, move |b| b.target(Datastore::Candidate)?.config(f).finish()); (s, l, "top", true) }
                 _ => (false, "local:unknown-param".into(), "", false),
             };
@@ -920,7 +975,7 @@ fn c10(cases_path: &str, out: &mut dyn Write) {
             let expect = match param.as_str() {
                 "url-edit" => format!("file:///cfg/{value}?a=1&b={value}"),
                 "url-delete" => format!("http://h.example/p/{value}?x={value}&y=2"),
-                "subtree-filter" | "edit-fragment" | "copy-fragment" => format!("{value}|{value}"),
+                "subtree-filter" | "edit-fragment" | "copy-fragment" | "edit-opaque" | "load-opaque" => format!("{value}|{value}"),
                 _ => value.clone(),
             };
             ev["expected"] = json!(expect);
